@@ -36,8 +36,9 @@ type c03Cfg struct {
 	Stack  string `json:"stack"` // tlcp | dtlcp
 	Suite  uint16 `json:"suite"`
 	Resume bool   `json:"resume"`
-	Auth   bool   `json:"auth"` // client authentication
-	Seed   uint64 `json:"seed"` // Config.Rand of both endpoints derives from it
+	Auth   bool   `json:"auth"`            // client authentication
+	Seed   uint64 `json:"seed"`            // Config.Rand of both endpoints derives from it
+	Steer  bool   `json:"steer,omitempty"` // the server selects its configuration by server name (GetConfigForClient): another name gets the other cipher mode
 }
 
 func (c c03Cfg) name() string {
@@ -49,6 +50,9 @@ func (c c03Cfg) name() string {
 	}
 	if c.Auth {
 		s += "-auth"
+	}
+	if c.Steer {
+		s += "-steer"
 	}
 	return s
 }
@@ -244,7 +248,15 @@ func c03EPs(cfg c03Cfg) (cc, sc tk.EPConfig) {
 		cc.Ident = "cli"
 		sc.Auth = 4
 	}
+	if cfg.Steer { // the client accepts both cipher modes, each server configuration enables one
+		cc.Suites = []uint16{cfg.Suite, c03OtherMode(cfg.Suite)}
+		sc.Suites = []uint16{cfg.Suite}
+	}
 	return
+}
+
+func c03OtherMode(s uint16) uint16 {
+	return map[uint16]uint16{0xe013: 0xe053, 0xe053: 0xe013, 0xe011: 0xe051, 0xe051: 0xe011}[s]
 }
 
 func c03IsECDHE(s uint16) bool { return s == 0xe011 || s == 0xe051 }
@@ -465,6 +477,19 @@ func c03BuildT(cfg c03Cfg) *c03EndpointsT {
 	e.ccache = &c03CacheT{inner: tlcp.NewLRUSessionCache(8)}
 	e.scache = &c03CacheT{inner: tlcp.NewLRUSessionCache(8)}
 	e.cc.SessionCache, e.sc.SessionCache = e.ccache, e.scache
+	if cfg.Steer {
+		alt := esc
+		alt.Suites = []uint16{c03OtherMode(cfg.Suite)}
+		ac := tk.BuildTLCP(alt, nil)
+		ac.SessionCache = e.scache
+		e.sc.GetConfigForClient = func(chi *tlcp.ClientHelloInfo) (*tlcp.Config, error) {
+			if chi.ServerName != "server.test" {
+				ac.Rand = e.sc.Rand
+				return ac, nil
+			}
+			return nil, nil
+		}
+	}
 	return e
 }
 
@@ -515,6 +540,19 @@ func c03BuildD(cfg c03Cfg) *c03EndpointsD {
 	e.ccache = &c03CacheD{inner: dtlcp.NewLRUSessionCache(8)}
 	e.scache = &c03CacheD{inner: dtlcp.NewLRUSessionCache(8)}
 	e.cc.SessionCache, e.sc.SessionCache = e.ccache, e.scache
+	if cfg.Steer {
+		alt := esc
+		alt.Suites = []uint16{c03OtherMode(cfg.Suite)}
+		ac := tk.BuildDTLCP(alt, nil)
+		ac.SessionCache = e.scache
+		e.sc.GetConfigForClient = func(chi *dtlcp.ClientHelloInfo) (*dtlcp.Config, error) {
+			if chi.ServerName != "server.test" {
+				ac.Rand, ac.NewTimer = e.sc.Rand, e.sc.NewTimer
+				return ac, nil
+			}
+			return nil, nil
+		}
+	}
 	return e
 }
 
@@ -699,6 +737,9 @@ func c03Targets(unit []byte, hdr int, sid []byte, suite uint16) map[string][]int
 		if i := bytes.Index(unit, sid); i >= 0 {
 			t["flip-session-id"] = []int{i, i + len(sid) - 1, i - 1}
 		}
+	}
+	if i := bytes.Index(unit, []byte("server.test")); i >= 0 {
+		t["flip-server-name"] = []int{i + 5, i + 10} // "server.test" -> "serves.test" / "server.tesu": still a well-formed name
 	}
 	su := []byte{byte(suite >> 8), byte(suite)}
 	if i := bytes.Index(unit, su); i >= 0 {
@@ -1393,6 +1434,8 @@ func runC03(p params) error {
 		plans = append(plans, plan{c03Cfg{Stack: "tlcp", Suite: 0xe013, Auth: true, Seed: p.seed + 1}, true},
 			plan{c03Cfg{Stack: "tlcp", Suite: 0xe053, Resume: true, Seed: p.seed + 1}, true})
 	}
+	// a server that selects its configuration by the name in the ClientHello
+	plans = append(plans, plan{c03Cfg{Stack: "tlcp", Suite: 0xe053, Seed: p.seed, Steer: true}, false})
 	for _, pl := range plans {
 		if err := c03GenT(out, p, r, pl.cfg, pl.exhaustive); err != nil {
 			return err
@@ -1416,6 +1459,8 @@ func runC03(p params) error {
 		plansD = append(plansD, plan{c03Cfg{Stack: "dtlcp", Suite: 0xe053, Auth: true, Seed: p.seed + 1}, true},
 			plan{c03Cfg{Stack: "dtlcp", Suite: 0xe013, Resume: true, Seed: p.seed + 1}, true})
 	}
+	plansD = append(plansD, plan{c03Cfg{Stack: "dtlcp", Suite: 0xe053, Seed: p.seed, Steer: true}, false},
+		plan{c03Cfg{Stack: "dtlcp", Suite: 0xe013, Auth: true, Seed: p.seed, Steer: true}, false})
 	for _, pl := range plansD {
 		if err := c03GenD(out, p, r, pl.cfg, pl.exhaustive); err != nil {
 			return err
